@@ -103,6 +103,8 @@ pub fn build_cache(cfg: &SutCfg) -> (Arc<Cache>, VClock) {
     (cache, clock)
 }
 
+pub static LIVE_THREADS_AT_CASE_START: std::sync::atomic::AtomicU64 = std::sync::atomic::AtomicU64::new(0);
+
 pub struct Sut {
     pub cache: Arc<Cache>,
     pub clock: VClock,
@@ -127,7 +129,16 @@ impl Sut {
         let sent_base = recorder().sent.load(Ordering::SeqCst);
         let completed_base = recorder().completed.load(Ordering::SeqCst);
         let failed_base = recorder().send_failed.load(Ordering::SeqCst);
+        // diagnostics: no background thread of an earlier cache may be alive now (immortal 1-hour sweepers excepted)
+        for i in 0..2 {
+            if marks.started[i] != marks.exited[i] { LIVE_THREADS_AT_CASE_START.fetch_add(1, Ordering::SeqCst); }
+        }
         let (cache, clock) = build_cache(&cfg);
+        // wait until the three background threads of this cache have announced themselves, so that exit accounting by
+        // counts is exact (a thread that starts late would otherwise be attributed to the next cache)
+        let _ = rt::wait_until("background threads of a new cache to start", || {
+            (0..3).all(|i| recorder().started[i].load(Ordering::SeqCst) >= marks.started[i] + 1)
+        });
         let sweeps = recorder().sweeps();
         Sut { cache, clock, cfg, marks, sweeps_at_last_clock_change: std::sync::atomic::AtomicU64::new(sweeps), applied_base, sweeps_base, sent_base, completed_base, failed_base }
     }
